@@ -92,3 +92,13 @@ def fill(add):
         "Target size x path form (absolute, relative, ../, via symlinked directory) x entry point (link_to*, link_to_hash*, WriteOpts::link_to* with correct/wrong size and integrity, stepwise linker with partial reads) x post-link event (modify, truncate, extend, remove, replace) x pre-existing regular content x flavour: reads return the bytes as of link time or fail, the content path is a symlink (no copy), the target's inode/mtime/bytes never change, wrong declarations are rejected and map nothing.",
         "Trusted: stat() of the target for 'never modified'.",
         "DESIGN.md 4/C19", "seqx")
+    add("C12", "model_checking",
+        "differential lock-step exploration of the three implementations against each other (explicit-state, de-duplicated on state triples)",
+        "The tree of all programs up to the length bound (4 quick / 5 thorough) over 25 actions (writes with options, chunked, one-shot, by address, rejected commits, reads, streamed reads, extractions, removals, remove_fully, clear, listing, link_to, 5 damage steps) is executed on three caches by the sync, async-std and tokio builds; after every step the normalised replies and the decoded trees are compared. Mixed-flavour: every program up to length 3 over 11 actions x every flavour assignment on one shared cache, compared with the pure-sync run.",
+        "Error messages are not compared (variant and io kind are); wall-clock and tombstone times normalised. By-address/unchecked hard links and reflink*_unchecked exist only as _sync calls.",
+        "DESIGN.md 4/C12", "seqx")
+    add("C20", "exploration",
+        "bounded-exhaustive enumeration of inputs and on-disk states with a totality oracle (panic catcher, process liveness, watchdog confirmed on a second run)",
+        "A battery of 21 operations x 3 flavours runs on every structural state (8 places x 6 kinds: directory, file, dangling symlink, symlink loop, unreadable directory, symlink to directory) and on every degenerate checksum-valid record (23 payloads x appended/only); writer/reader input shapes (declared size x chunkings incl. empty / more / fewer bytes, closed writers, reads after EOF); and the enumerations of C01, C02, C06, C08, C11, C18, C19 are re-run with the totality oracle only. The fault-injection (C13), crash (C03/C04) and schedule (C07) checks apply the same oracle to their own executions.",
+        "Integrity arguments are well-formed (the property's assumption). FIFOs/device nodes are outside the alphabet.",
+        "DESIGN.md 4/C20", "seqx")
